@@ -2,6 +2,7 @@ import SstModel
 import Driver.Proto
 import Driver.Cmds
 import Driver.Session
+import Driver.Judges
 open Sst Sst.Proto
 
 /-- One request line in, one response line out. Unknown or ill-formed requests answer `bad-op`
@@ -40,7 +41,10 @@ def handle (line : String) : String :=
     | none =>
       match Sst.Session.handle words with
       | some r => r
-      | none => "bad-op"
+      | none =>
+        match Sst.Judges.handle words with
+        | some r => r
+        | none => "bad-op"
 
 partial def loop (hin hout : IO.FS.Stream) : IO Unit := do
   let line ← hin.getLine
